@@ -1,4 +1,5 @@
 import Dnp3.Model.OutstationTrace
+import Dnp3.Proofs.FreezeAtTime
 /-!
 # C07 (application part): master-address filter and broadcast silence of the outstation session
 
@@ -49,6 +50,7 @@ theorem unfolds one; only `example`s / `*_example` evaluate through the stub):
 -/
 namespace Dnp3.Proofs.C07app
 open Dnp3
+open Dnp3.Proofs.FreezeAtTime
 
 /-! ## Concrete states used by the `example`s -/
 
@@ -638,6 +640,11 @@ theorem handleFreeze_quiet (a : Acc) (seq : Nat) (k : FreezeKind) (hs : List Obj
   exact foldl_quiet (fun (p : Acc × Nat) h => ((handleFreezeHeader p.1 k h).1, p.2 ||| (handleFreezeHeader p.1 k h).2))
     (fun p h => handleFreezeHeader_quiet p.1 k h) hs (a, 0)
 
+theorem handleFreezeAtTime_quiet (a : Acc) (seq : Nat) (hs : List ObjHdr) :
+    Quiet a (handleFreezeAtTime a seq hs).1 :=
+  handleFreezeAtTime_inv (fun b => Quiet a b)
+    (fun b h hb => Quiet.trans hb (handleFreezeHeader_quiet b .atTime h)) a seq hs (Quiet.refl _)
+
 theorem handleEnableDisable_quiet (a : Acc) (en : Bool) (seq : Nat) (hs : List ObjHdr) :
     Quiet a (handleEnableDisable a en seq hs).1 := by
   unfold handleEnableDisable
@@ -674,6 +681,7 @@ theorem processBroadcast_silent (a : Acc) (f : Frag) (m : Nat) (ctrl : AppCtrl) 
     | exact key _ _ (Quiet.refl _) h
     | exact key _ _ (handleWrite_quiet ..) h
     | exact key _ _ (handleFreeze_quiet ..) h
+    | exact key _ _ (handleFreezeAtTime_quiet ..) h
     | exact key _ _ (handleEnableDisable_quiet ..) h
     | exact key _ _ (Quiet.state _ _ ⟨rfl, rfl, rfl, rfl, rfl⟩) h
     | (rename_i heq; exact key _ _ (handleControls_6_quiet _ _ _ _ _ _ _ heq).1 h)
@@ -1398,6 +1406,7 @@ theorem pre_handleNonRead (a a' : Acc) (func seq frameId : Nat) (hs : List ObjHd
            | exact List.prefix_refl _
            | exact (handleWrite_quiet ..).pre
            | exact (handleFreeze_quiet ..).pre
+           | exact (handleFreezeAtTime_quiet ..).pre
            | exact (handleEnableDisable_quiet ..).pre
            | exact pre_handleRestart ..)
 
